@@ -3,7 +3,7 @@ from verif.core import Infra
 META = dict(
     technique="TLA+ reference of head delimitation (first blank line under fasthttp's own LF line rule) with a partial Verdict operator; TLC enumerates every complete head (start-line remainder, 0..2 header lines over {CR, letter, ':', SP}, CRLF/bare-LF line ends) and checks continuation-independence of the reference; the vectors are replayed into RequestHeader.Read, ResponseHeader.Read and a live Server with every continuation of the menu, joined and split (B3)",
     design_ref="DESIGN.md §4 C09",
-    text="For every enumerated complete head H and every continuation S (empty, body bytes, CRLFCRLF, LF, LFLF, CRLF, a further message, garbage, a further header line) the real parsers must (1) never ask for more input than H itself (reads are counted on a non-blocking reader / scripted connection), (2) give the same accept/reject result, fields and consumed byte count for all S, (3) agree with the reference verdict where the reference defines one (strict CRLF well-formed heads accept with exactly these fields; glued start line, header line without colon or name reject).",
+    text="For every enumerated complete head H and every continuation S (empty, body bytes, CRLFCRLF, LF, LFLF, CRLF, a further message, garbage, a further header line) the real parsers must (1) never ask for more input than H itself: H is delivered in one read, in two reads (every cut inside the enumerated part of the head in the thorough tier; the last four cuts and a seeded one in the quick tier) and in three reads ending 2 and 1 bytes before its end, with nothing following or a further message arriving later; a Read issued after the last byte of H was delivered counts as a wait (non-blocking counting reader / scripted connection, so an open connection is modelled without timing), (2) give the same accept/reject result, fields and consumed byte count for all S, (3) agree with the reference verdict where the reference defines one (strict CRLF well-formed heads accept with exactly these fields; glued start line, header line without colon or name reject).",
     note="Trusted: HeadDelim.tla's line rule (taken from readRawHeaders/nextLine: LF ends a line, one preceding CR dropped), TLC, Go toolchain. Heads outside the alphabet/length bound are not enumerated. Where the reference verdict is 'any' only continuation-independence and no-wait are required.",
 )
 
@@ -18,7 +18,7 @@ def run(ctx):
     if not any(k.startswith("outcome_") and k.endswith("/accept") for k in ctx.extra) and not ctx.violations:
         raise Infra("vacuity guard: no head was accepted by any parser")
     ctx.exhaustive = True
-    ctx.rule = ("one evaluation = one (head, parser in {RequestHeader.Read, ResponseHeader.Read, live Server}, continuation, joined/split) parse; "
+    ctx.rule = ("one evaluation = one (head, parser in {RequestHeader.Read, ResponseHeader.Read, live Server}, continuation, segmentation of head and continuation) parse; "
                 "distinct_nontrivial = heads containing a bare LF or a CR outside CRLF; exhaustive over heads with start-line remainder in {'', CR, 'a'}, "
                 "one header line of <= %d bytes or two of <= %d bytes over {CR, a, ':', SP}, blank line CRLF or LF, plus grammar-shaped lines name ':' OWS value OWS (GLines/GSmall of HeadDelimGen.tla)" % (m1, m2))
     ctx.assumptions = ["alphabet {CR, LF, letter 'a', ':', SP}; line-content bounds %d / %d" % (m1, m2),
